@@ -7,6 +7,8 @@ pub use memory::InMemoryStorage;
 
 mod secondary;
 pub use secondary::{SecondaryStorage, StorageOptions as SecondaryStorageOptions};
+#[cfg(feature = "verif")]
+pub use secondary::verif as column_verif;
 
 mod index;
 pub use index::InMemoryIndex;
